@@ -45,6 +45,8 @@ pub struct SimNode {
     pub state: Arc<Mutex<NodeState>>,
     pub chain: Arc<Mutex<ChainState>>,
     pub log: EventLog,
+    /// called (on the tower's thread, no node lock held) right before an RPC fails with a transport error
+    pub on_failed_rpc: Arc<Mutex<Option<Arc<dyn Fn(&str) + Send + Sync>>>>,
 }
 
 #[derive(Debug)]
@@ -58,7 +60,7 @@ impl std::error::Error for Refused {}
 
 impl SimNode {
     pub fn new(chain: Arc<Mutex<ChainState>>, log: EventLog) -> Self {
-        SimNode { down: Arc::new(std::sync::atomic::AtomicBool::new(false)), state: Arc::new(Mutex::new(NodeState::default())), chain, log }
+        SimNode { down: Arc::new(std::sync::atomic::AtomicBool::new(false)), state: Arc::new(Mutex::new(NodeState::default())), chain, log, on_failed_rpc: Arc::new(Mutex::new(None)) }
     }
 
     pub fn client(&self) -> bitcoincore_rpc::Client {
@@ -124,6 +126,10 @@ impl SimNode {
             let failing = st.down || self.down.load(std::sync::atomic::Ordering::SeqCst);
             if failing {
                 drop(st);
+                let cb = lock(&self.on_failed_rpc).clone();
+                if let Some(cb) = cb {
+                    cb(method);
+                }
                 match method {
                     "sendrawtransaction" => {
                         let txid = params.get(0).and_then(|h| h.as_str()).and_then(|h| hex::decode(h).ok())
